@@ -574,17 +574,38 @@ def extract_parse_tail(repo, consts):
 # repr(C) structs
 # ------------------------------------------------------------------------------------------
 
+NOT_REPR_C = []   # (name, fields, file) of C-layout structs declared without #[repr(C)]
+
+
 def extract_cstructs(repo, consts):
+    """every `pub struct Elf32_*/Elf64_*`; field types are resolved through `pub type A = B;` aliases.
+    Structs that carry #[repr(C)] go to CStructs.lean; the others are recorded in NOT_REPR_C (their layout is
+    unspecified) and still get a compiled offset table in the harness, so that the violation comes with the
+    offsets the compiler actually chose."""
     structs = []
+    del NOT_REPR_C[:]
     for fname in CSTRUCT_FILES:
         src = read_src(repo, fname)
-        for m in re.finditer(r"#\[repr\(C\)\]\s*pub\s+struct\s+(\w+)\s*\{", src):
+        aliases = dict(re.findall(r"pub\s+type\s+(\w+)\s*=\s*([^;]+);", src))
+        def resolve(ty):
+            ty = ty.strip()
+            for _ in range(8):
+                if ty in aliases:
+                    ty = aliases[ty].strip()
+                else:
+                    break
+            return ty
+        for m in re.finditer(r"((?:#\[[^\]]*\]\s*)*)pub\s+struct\s+(\w+)\s*\{", src):
+            attrs, name = m.group(1), m.group(2)
+            is_c = re.search(r"#\[repr\(C\)\]", attrs) is not None
+            if not is_c and not re.fullmatch(r"Elf(32|64)_\w+", name):
+                continue
             end = find_matching(src, m.end() - 1)
             body = src[m.end():end]
             fields = []
             for fm in re.finditer(r"pub\s+(\w+)\s*:\s*([^,]+),", body):
-                fields.append((fm.group(1), fm.group(2).strip()))
-            structs.append((m.group(1), fields, fname))
+                fields.append((fm.group(1), resolve(fm.group(2))))
+            (structs if is_c else NOT_REPR_C).append((name, fields, fname))
     return structs
 
 
@@ -1011,12 +1032,14 @@ def emit_rust(consts_list, structs, to_str, sizes):
     L.append("];")
     L.append("pub fn cstructs() -> Vec<(&'static str, usize, Vec<(&'static str, usize)>)> {")
     L.append("    vec![")
-    for name, fields, fname in structs:
+    for name, fields, fname in list(structs) + list(NOT_REPR_C):
         mod = fname[:-3]
         fs = ", ".join('("%s", core::mem::offset_of!(elf::%s::%s, %s))' % (fn, mod, name, fn) for fn, _ in fields)
         L.append('        ("%s", core::mem::size_of::<elf::%s::%s>(), vec![%s]),' % (name, mod, name, fs))
     L.append("    ]")
     L.append("}")
+    L.append("/// C-layout structs declared without #[repr(C)]: their field offsets are unspecified")
+    L.append("pub const NOT_REPR_C: &[&str] = &[%s];" % ", ".join('"%s"' % n for n, _, _ in NOT_REPR_C))
     L.append("pub fn call_to_str(name: &str, v: i128) -> Option<Option<&'static str>> {")
     L.append("    match name {")
     rng = {"u8": (0, 255), "u16": (0, 65535), "u32": (0, 2**32 - 1), "u64": (0, 2**64 - 1),
